@@ -64,7 +64,8 @@ class ZArr(Stub):
         self.stores.append((k.key(), v.key()))
 
     def key(self):
-        return f"zeros_like({self.like.key()}){self.stores}"
+        # every array of the evaluator has the shape of the temperatures: what the zeros are shaped like does not matter
+        return f"zeros{self.stores}"
 
 
 class Rec:
@@ -192,8 +193,8 @@ def judge(o: Dict[str, Any], model_key: str) -> List[Tuple[str, str]]:
         bad.append(("f_unc", f"the uncertainty must be the component's f_unc for every temperature; found {o['f_unc']}"))
     bp_h, bp_c, c0 = fm[0], fm[3], fm[6]
     lo = f"sub(MODEL, {c0})"
-    want_h = f"zeros_like(MODEL)[('le(T, {bp_h})', 'take({lo}, le(T, {bp_h}))')]"
-    want_c = f"zeros_like(MODEL)[('ge(T, {bp_c})', 'take({lo}, ge(T, {bp_c}))')]"
+    want_h = f"zeros[('le(T, {bp_h})', 'take({lo}, le(T, {bp_h}))')]"
+    want_c = f"zeros[('ge(T, {bp_c})', 'take({lo}, ge(T, {bp_c}))')]"
     if o["hdd_load"] != want_h:
         bad.append(("loads", f"heating load must be (model - intercept) where T <= hdd_bp and zero elsewhere, with hdd_bp and intercept the entries 0 and 6 of the vector handed to the kernel; found {o['hdd_load']} (expected {want_h})"))
     if o["cdd_load"] != want_c:
